@@ -301,3 +301,105 @@ package spec
 //@   property C20
 //@   requires v != nil
 //@   ensures  allCleared(*v, old(*v))
+
+// ===========================================================================
+// Assumed contracts on dependencies (trusted base; see /verif/DESIGN.md 1.5)
+// URL records: (scheme, host, path, rawquery, fragment).  url.Parse / URL.String are a pair of
+// uninterpreted functions with projection laws; path functions are uninterpreted with the laws below.
+// ===========================================================================
+
+//@ specfn urlOK(string) bool
+//@ specfn urlScheme(string) string
+//@ specfn urlHost(string) string
+//@ specfn urlPath(string) string
+//@ specfn urlQuery(string) string
+//@ specfn urlFrag(string) string
+//@ specfn urlStr(string, string, string, string, string) string
+//@ specfn pathClean(string) string
+//@ specfn pathDir(string) string
+//@ specfn pathJoin2(string, string) string
+//@ specfn dedupSlashes(string) string
+//@ specfn normHost(string, string) string
+
+// printing a record and parsing it back gives the record (assumed law of net/url on the records that occur here)
+//@ axiom forall s string, h string, p string, q string, f string :: urlOK(urlStr(s, h, p, q, f)) && urlScheme(urlStr(s, h, p, q, f)) == s
+//@        && urlHost(urlStr(s, h, p, q, f)) == h && urlPath(urlStr(s, h, p, q, f)) == p && urlQuery(urlStr(s, h, p, q, f)) == q && urlFrag(urlStr(s, h, p, q, f)) == f
+// parsing then printing a string whose record is already normal gives the string back
+//@ axiom forall x string :: urlOK(x) ==> urlOK(urlStr(urlScheme(x), urlHost(x), urlPath(x), urlQuery(x), urlFrag(x)))
+// url.Parse lower-cases the scheme
+//@ axiom forall x string :: lower(urlScheme(x)) == urlScheme(x)
+// path.Clean
+//@ axiom forall p string :: pathClean(pathClean(p)) == pathClean(p) && pathClean(p) != "" && hasPrefix(pathClean(p), "/") == hasPrefix(p, "/")
+//@ axiom pathClean("") == "." && pathClean(".") == "." && pathClean("/") == "/"
+// the empty string parses to the empty record
+//@ axiom urlOK("") && urlScheme("") == "" && urlHost("") == "" && urlPath("") == "" && urlQuery("") == "" && urlFrag("") == ""
+// the working directory can be determined (filepath.Abs succeeds); when it cannot, normalizeBase keeps a relative path: stated exception of C11
+//@ specfn cwdAvailable() bool
+// a clean path has no duplicate slashes
+//@ axiom forall p string :: dedupSlashes(pathClean(p)) == pathClean(p)
+//@ axiom dedupSlashes("") == ""
+// path.Dir / path.Join
+//@ axiom forall p string :: pathClean(pathDir(p)) == pathDir(p) && hasPrefix(pathDir(p), "/") == hasPrefix(p, "/")
+//@ axiom forall a string, b string :: a != "" && b != "" ==> pathJoin2(a, b) == pathClean(a + "/" + b)
+//@ axiom forall b string :: pathJoin2("", b) == (b == "" ? "" : pathClean(b))
+//@ axiom forall a string :: a != "" ==> pathJoin2(a, "") == pathClean(a)
+
+//@ ext net/url.Parse
+//@   params rawURL string
+//@   assigns nothing
+//@   ensures !urlOK(rawURL) ==> result0 == nil && result1 != nil
+//@   ensures urlOK(rawURL) ==> result1 == nil && freshObj(result0) && result0.Scheme == urlScheme(rawURL) && result0.Host == urlHost(rawURL)
+//@            && result0.Path == urlPath(rawURL) && result0.RawQuery == urlQuery(rawURL) && result0.Fragment == urlFrag(rawURL)
+
+//@ ext (*net/url.URL).String
+//@   params u *url.URL
+//@   pure
+//@   requires u != nil
+//@   ensures result == urlStr(u.Scheme, u.Host, u.Path, u.RawQuery, u.Fragment)
+
+//@ ext path.Clean
+//@   params p string
+//@   pure
+//@   ensures result == pathClean(p)
+
+//@ ext path.Dir
+//@   params p string
+//@   pure
+//@   ensures result == pathDir(p)
+
+//@ ext path.IsAbs
+//@   params p string
+//@   pure
+//@   ensures result == hasPrefix(p, "/")
+
+//@ ext path.Join
+//@   params elem []string
+//@   pure
+//@   ensures len(elem) == 2 ==> result == pathJoin2(elem[0], elem[1])
+
+//@ ext path/filepath.Abs
+//@   params p string
+//@   pure
+//@   ensures result1 == nil ==> hasPrefix(result0, "/") && pathClean(result0) == result0 && result0 != "."
+//@   ensures cwdAvailable() || hasPrefix(p, "/") ==> result1 == nil
+//@   ensures result1 == nil && hasPrefix(p, "/") ==> result0 == pathClean(p)
+
+//@ func debugLog
+//@   trusted logging only (runtime.Caller, log output); touches no package data
+//@   assigns nothing
+
+// ===========================================================================
+// C11 — canonical base locations (normalizer.go, normalizer_nonwindows.go, url_go19.go)
+// ===========================================================================
+
+//@ define canonicalURL(x string) bool = urlOK(x) && urlScheme(x) != "" && urlFrag(x) == ""
+//@    && (urlPath(x) == "" || (pathClean(urlPath(x)) == urlPath(x) && urlPath(x) != "."))
+//@    && (urlScheme(x) == "file" ==> hasPrefix(urlPath(x), "/") && urlQuery(x) == "")
+
+//@ func normalizeBase
+//@   property C11
+//@   assigns  nothing
+//@   ensures  canonical @@ cwdAvailable() ==> canonicalURL(result)
+//@   ensures  file-no-query @@ cwdAvailable() && (!urlOK(in) || urlScheme(in) == "" || (urlScheme(in) == "file" && !hasPrefix(pathClean(urlPath(in)), "/"))) ==> urlScheme(result) == "file" && urlQuery(result) == ""
+//@   ensures  keeps-scheme @@ urlOK(in) && urlScheme(in) != "" && urlScheme(in) != "file" ==> urlScheme(result) == urlScheme(in) && urlHost(result) == urlHost(in) && urlQuery(result) == urlQuery(in)
+//@   ensures  idempotent @@ canonicalURL(in) && in == urlStr(urlScheme(in), urlHost(in), urlPath(in), urlQuery(in), "") ==> result == in
